@@ -20,7 +20,7 @@ def parse(name):
         return res
     cur = None
     for ln in open(p):
-        m = re.match(r"== ([CEFGHIJK]\d+-[A-Z])", ln)
+        m = re.match(r"== ([CEFGHIJKL]\d+-[A-Z])", ln)
         if m:
             cur = m.group(1)
             res.setdefault(cur, {})
@@ -47,11 +47,13 @@ for k, v in parse("matrix_r9.txt").items():
     final[k] = v
 for k, v in parse("matrix_r10.txt").items():
     final[k] = v
-for name in ("matrix_fix.txt", "matrix_fix5.txt", "matrix_fix6.txt", "matrix_fix8.txt", "matrix_fix9.txt", "matrix_fix10.txt"):
+for k, v in parse("matrix_r11.txt").items():
+    final[k] = v
+for name in ("matrix_fix.txt", "matrix_fix5.txt", "matrix_fix6.txt", "matrix_fix8.txt", "matrix_fix9.txt", "matrix_fix10.txt", "matrix_fix11.txt"):
     for k, v in parse(name).items():
         final.setdefault(k, {}).update(v)
 first = {}
-for name in ("matrix3.txt", "matrix4.txt", "matrix_r4.txt", "matrix_r5.txt", "matrix_r6.txt", "matrix_r7.txt", "matrix_r8.txt", "matrix_r9.txt", "matrix_r10.txt"):
+for name in ("matrix3.txt", "matrix4.txt", "matrix_r4.txt", "matrix_r5.txt", "matrix_r6.txt", "matrix_r7.txt", "matrix_r8.txt", "matrix_r9.txt", "matrix_r10.txt", "matrix_r11.txt"):
     for k, v in parse(name).items():
         first[k] = v
 summ = json.load(open(os.path.join(V, "seeded", "summaries.json")))
@@ -63,10 +65,10 @@ for d in sorted(os.listdir(os.path.join(V, "seeded"))):
     mp = os.path.join(dd, "meta.json")
     meta = json.load(open(mp)) if os.path.exists(mp) else {}
     notes = open(os.path.join(dd, "author_notes.md")).read() if os.path.exists(os.path.join(dd, "author_notes.md")) else ""
-    if d[0] in "EGHJK":
+    if d[0] in "EGHJKL":
         m = re.search(r"PROPERTY:\s*(C\d+)", notes)
         prop = m.group(1) if m else "?"
-        rnd = {"E": 4, "G": 6, "H": 7, "J": 9, "K": 10}[d[0]]
+        rnd = {"E": 4, "G": 6, "H": 7, "J": 9, "K": 10, "L": 11}[d[0]]
     elif d[0] in "FI":
         prop = "C" + d[1:3]
         rnd = {"F": 5, "I": 8}[d[0]]
@@ -99,7 +101,7 @@ with open(os.path.join(V, "seeded", "README.md"), "w") as f:
     f.write("# Seeded changes\n\nEach directory holds `patch.diff` (a change to tokio-rs/bytes that breaks one property while compiling and passing the "
             "pinned test suite), the author's demonstration `demo.rs` (fails with the change, passes without), `author_notes.md` and `meta.json`.\n"
             "All were written by fresh sub-agents (rounds 1-3: one property each, told which mechanisms were already used; round 4 `E..`: one area of the "
-            "source each, two changes; rounds 5-10 `F..` - `K..` likewise, one property (F, I) or one area (G, H, J, K) per author); all were confirmed at /repo HEAD in a scratch worktree (pure memory-ordering changes only fail under Miri). "
+            "source each, two changes; rounds 5-11 `F..` - `L..` likewise, one property (F, I) or one area (G, H, J, K, L) per author); all were confirmed at /repo HEAD in a scratch worktree (pure memory-ordering changes only fail under Miri). "
             "None is ever committed to /repo.\n\n"
             "`./check selftest --seeded` re-applies each one and expects a VIOLATION from the first check listed under `detected_by`.\n"
             "Column *first run* says whether the quick check of the change's own property caught it before the checks were strengthened for that round "
